@@ -138,16 +138,21 @@ def fixed_hash_strings():
 
 class TorrentServer:
     """Loopback HTTP server. `routes` maps a path prefix to (status, body); every request path
-    is recorded in `.seen`."""
+    is recorded in `.seen`.  `hook(index, path)`, if set, runs in the handler thread after the request
+    was recorded and before the response is sent (the client is waiting for the answer meanwhile)."""
 
     def __init__(self):
         self.routes = {}
         self.seen = []
+        self.hook = None
         outer = self
 
         class H(http.server.BaseHTTPRequestHandler):
             def do_GET(self):
                 outer.seen.append(self.path)
+                hook = outer.hook
+                if hook is not None:
+                    hook(len(outer.seen) - 1, self.path)
                 for prefix, (status, body) in outer.routes.items():
                     if self.path.startswith(prefix):
                         self.send_response(status)
